@@ -7,10 +7,6 @@ import (
 	"net/url"
 	"strings"
 	"time"
-
-	"pgregory.net/rapid"
-
-	v35 "github.com/bluenviron/mediamtx/internal/verifc35"
 )
 
 // ---------------------------------------------------------------- HTTP request rendering
@@ -39,79 +35,72 @@ func (r c35HTTPReq) bytes(host string) []byte {
 	return append([]byte(b.String()), r.body...)
 }
 
-// httpReq builds one request: a valid line and headers, with boundary mutations.
-func (g *c35G) httpReq(lbl, method, target string, body []byte, ctype string) c35HTTPReq {
+// httpReq builds one request: a valid line and headers, with boundary mutations behind the oddity gate.
+func (g *c35G) httpReq(method, target string, body []byte, ctype string) c35HTTPReq {
 	r := c35HTTPReq{method: method, target: target, proto: "HTTP/1.1", body: body}
-	if g.chance(lbl+"proto", 30) {
-		r.proto = g.pick(lbl+"protov", "HTTP/1.0", "HTTP/1.1", "HTTP/2.0", "HTTP/0.9", "HTTP/1.10", "HTTP/9999999999.1", "RTSP/1.0", "", "http/1.1")
+	if g.odd(40) {
+		r.proto = g.pick("HTTP/1.0", "HTTP/1.0", "HTTP/2.0", "HTTP/0.9", "HTTP/1.10", "HTTP/9999999999.1", "RTSP/1.0", "", "http/1.1")
 	}
-	if g.chance(lbl+"meth", 20) {
-		r.method = g.pick(lbl+"methv", "GET", "HEAD", "POST", "PUT", "PATCH", "DELETE", "OPTIONS", "CONNECT", "TRACE", "PRI", "get", "FOO", "", "PROPFIND", "G\x00T")
+	if g.odd(30) {
+		r.method = g.pick("GET", "HEAD", "POST", "PUT", "PATCH", "DELETE", "OPTIONS", "CONNECT", "TRACE", "PRI", "get", "FOO", "", "PROPFIND", "G\x00T")
 	}
-	if g.chance(lbl+"host", 30) {
+	if g.odd(40) {
 		r.noHost = true
-		if g.chance(lbl+"host2", 2) {
-			r.hdr = append(r.hdr, [2]string{"Host", g.pick(lbl+"hostv", "", "a", "a:b", "[::1", "127.0.0.1:99999", g.long(lbl+"hostl"))}, [2]string{"Host", "x"})
+		if g.chance(2) {
+			r.hdr = append(r.hdr, [2]string{"Host", g.pick("", "a", "a:b", "[::1", "127.0.0.1:99999", g.long())}, [2]string{"Host", "x"})
 		}
 	}
 	if ctype != "" {
 		r.hdr = append(r.hdr, [2]string{"Content-Type", ctype})
 	}
-	hasBody := body != nil
-	chunked := false
-	if hasBody {
-		switch g.intn(lbl+"cl", 0, 15) {
+	if body != nil {
+		switch g.oddCase(8, 5) {
 		case 0:
-			r.hdr = append(r.hdr, [2]string{"Content-Length", g.pick(lbl+"clv", "0", "-1", "1", "+5", "99999", "4294967296", "99999999999999999999", "abc", "", fmt.Sprint(len(body)+1), fmt.Sprint(len(body)/2))})
+			r.hdr = append(r.hdr, [2]string{"Content-Length", g.pick("0", "-1", "1", "+5", "99999", "4294967296", "99999999999999999999", "abc", "", fmt.Sprint(len(body)+1), fmt.Sprint(len(body)/2))})
 		case 1: // none
 		case 2:
 			r.hdr = append(r.hdr, [2]string{"Content-Length", fmt.Sprint(len(body))}, [2]string{"Content-Length", "0"})
-		case 3, 4: // chunked
-			chunked = true
-			r.hdr = append(r.hdr, [2]string{"Transfer-Encoding", g.pick(lbl+"te", "chunked", "chunked", "chunked", "Chunked", "gzip, chunked", "chunked, chunked", "identity", "x")})
+		case 3: // chunked
+			r.hdr = append(r.hdr, [2]string{"Transfer-Encoding", g.pick("chunked", "chunked", "chunked", "Chunked", "gzip, chunked", "chunked, chunked", "identity", "x")})
 			var cb []byte
 			rest := body
 			for len(rest) > 0 {
-				n := g.intn(lbl+"chunk", 1, 2000)
-				if n > len(rest) {
-					n = len(rest)
-				}
+				n := min(g.rng(1, 2000), len(rest))
 				cb = append(cb, []byte(fmt.Sprintf("%x\r\n", n))...)
 				cb = append(cb, rest[:n]...)
 				cb = append(cb, '\r', '\n')
 				rest = rest[n:]
 			}
-			cb = append(cb, []byte(g.pick(lbl+"chunkend", "0\r\n\r\n", "0\r\n\r\n", "0\r\n\r\n", "0\r\nX-Trailer: y\r\n\r\n", "", "ffffffffffffffff\r\n", "-1\r\n", "0;ext=1\r\n\r\n", "zz\r\n"))...)
+			cb = append(cb, []byte(g.pick("0\r\n\r\n", "0\r\n\r\n", "0\r\n\r\n", "0\r\nX-Trailer: y\r\n\r\n", "", "ffffffffffffffff\r\n", "-1\r\n", "0;ext=1\r\n\r\n", "zz\r\n"))...)
 			r.body = cb
-		case 5: // both
+		case 4: // both
 			r.hdr = append(r.hdr, [2]string{"Content-Length", fmt.Sprint(len(body))}, [2]string{"Transfer-Encoding", "chunked"})
 		default:
 			r.hdr = append(r.hdr, [2]string{"Content-Length", fmt.Sprint(len(body))})
 		}
 	}
-	_ = chunked
-	if !g.chance(lbl+"keep", 6) {
+	if !g.chance(8) {
 		r.hdr = append(r.hdr, [2]string{"Connection", "close"})
 	}
 	// credentials / odd headers
-	if g.chance(lbl+"auth", 4) {
-		r.hdr = append(r.hdr, [2]string{"Authorization", g.pick(lbl+"authv",
+	if g.odd(8) || (g.s.Restricted && g.chance(3)) {
+		r.hdr = append(r.hdr, [2]string{"Authorization", g.pick(
 			"Basic "+c35B64("admin:wrong"), "Basic "+c35B64(c35AdminUser+":wrong"), "Basic "+c35B64("nocolon"), "Basic "+c35B64(":"), "Basic !!!", "Basic", "Basic ", "basic "+c35B64("a:b"),
-			"Bearer x", "Bearer a.b.c", "Bearer eyJhbGciOiJub25lIn0.eyJzdWIiOiJhIn0.", "Bearer ", "Bearer", "Bearer "+strings.Repeat("A", 9000), "Digest username=\"a\"", "Negotiate x", "", " ", "\x00raw")})
+			"Bearer x", "Bearer a.b.c", "Bearer eyJhbGciOiJub25lIn0.eyJzdWIiOiJhIn0.", "Bearer ", "Bearer", "Bearer "+strings.Repeat("A", 9000), "Digest username=\"a\"", "Negotiate x", "", " ")})
 	}
-	if g.chance(lbl+"odd", 5) {
-		r.hdr = append(r.hdr, [2]string{"\x00raw", g.pick(lbl+"oddv",
-			"Range: bytes="+g.pick(lbl+"rg", "0-0", "0-", "-1", "-0", "5-2", "0-0,1-1,2-2", "99999999999999999999-", "a-b", "0-18446744073709551615", strings.Repeat("0-0,", 2000)+"1-1"),
-			"Range: "+g.token(lbl+"rgt"), "If-Match: "+g.token(lbl+"im"), "If-None-Match: *", "If-Modified-Since: "+g.token(lbl+"ims"), "If-Range: x",
-			"Origin: "+g.pick(lbl+"org", "http://a", "null", "*", "", "http://"+strings.Repeat("a", 5000), "a b"),
-			"Access-Control-Request-Method: "+g.token(lbl+"acrm"), "Access-Control-Request-Headers: "+g.long(lbl+"acrh"),
-			"X-Forwarded-For: "+g.pick(lbl+"xff", "1.2.3.4", "::1", "a", "", "1.2.3.4, 5.6.7.8", strings.Repeat("1.1.1.1,", 2000)), "X-Real-IP: "+g.token(lbl+"xri"),
-			"Accept-Encoding: gzip, deflate, br", "Accept: "+g.token(lbl+"acc"), "Expect: 100-continue", "Expect: "+g.token(lbl+"exp"),
+	if g.odd(8) {
+		r.hdr = append(r.hdr, [2]string{"\x00raw", g.pick(
+			"Range: bytes="+g.pick("0-0", "0-", "-1", "-0", "5-2", "0-0,1-1,2-2", "99999999999999999999-", "a-b", "0-18446744073709551615", strings.Repeat("0-0,", 2000)+"1-1"),
+			"Range: "+g.token(), "If-Match: "+g.token(), "If-None-Match: *", "If-Modified-Since: "+g.token(), "If-Range: x",
+			"Origin: "+g.pick("http://a", "null", "*", "", "http://"+strings.Repeat("a", 5000), "a b"),
+			"Access-Control-Request-Method: "+g.token(), "Access-Control-Request-Headers: "+g.long(),
+			"X-Forwarded-For: "+g.pick("1.2.3.4", "::1", "a", "", "1.2.3.4, 5.6.7.8", strings.Repeat("1.1.1.1,", 2000)), "X-Real-IP: "+g.token(),
+			"Accept-Encoding: gzip, deflate, br", "Accept: "+g.token(), "Expect: 100-continue", "Expect: "+g.token(),
 			"Upgrade: websocket\r\nConnection: Upgrade\r\nSec-WebSocket-Key: dGhlIHNhbXBsZSBub25jZQ==\r\nSec-WebSocket-Version: 13", "Upgrade: h2c\r\nHTTP2-Settings: AAMAAABkAAQAAP__",
-			"Cookie: "+g.pick(lbl+"ck", "cookieCheck=1", "cookieCheck=1; hlsSession=x", "hlsSession=00000000-0000-0000-0000-000000000000", "=", ";;;", g.long(lbl+"ckl")),
-			"NoColonHeader", ": novalue", "X-Empty:", " leading: space", "X-Fold: a\r\n b", "X\x00Y: z", "X-Long: "+v35.LongString(g.t, g.l(lbl+"xl")), "Content-Encoding: gzip", "TE: trailers", "Trailer: X")})
+			"Cookie: "+g.pick("cookieCheck=1", "cookieCheck=1; hlsSession=x", "hlsSession=00000000-0000-0000-0000-000000000000", "=", ";;;", g.long()),
+			"NoColonHeader", ": novalue", "X-Empty:", " leading: space", "X-Fold: a\r\n b", "X\x00Y: z", "X-Long: "+g.x.LongString(), "Content-Encoding: gzip", "TE: trailers", "Trailer: X")})
 	}
-	if g.chance(lbl+"many", 60) {
+	if g.odd(100) {
 		for i := 0; i < 400; i++ {
 			r.hdr = append(r.hdr, [2]string{fmt.Sprintf("X-H%d", i), "v"})
 		}
@@ -120,16 +109,16 @@ func (g *c35G) httpReq(lbl, method, target string, body []byte, ctype string) c3
 }
 
 // oddPath applies URL-level oddities to a path ("/a/b").
-func (g *c35G) oddPath(lbl, p string) string {
-	switch g.intn(lbl+"podd", 0, 24) {
+func (g *c35G) oddPath(p string) string {
+	switch g.oddCase(8, 6) {
 	case 0:
 		return strings.ReplaceAll(p, "/", "//")
 	case 1:
-		return p + g.pick(lbl+"sfx", "/", "//", "/.", "/..", "/../", "%00", "%2f", "%2F..%2F..", "/%2e%2e/%2e%2e/etc/passwd", "?", "#", ";x", "\\", "%", "%zz", "%u0041", " ")
+		return p + g.pick("/", "//", "/.", "/..", "/../", "%00", "%2f", "%2F..%2F..", "/%2e%2e/%2e%2e/etc/passwd", "?", "#", ";x", "\\", "%", "%zz", "%u0041", " ")
 	case 2: // percent-encode some letters
 		var b strings.Builder
 		for i := 0; i < len(p); i++ {
-			if p[i] != '/' && g.chance(fmt.Sprintf("%senc%d", lbl, i), 3) {
+			if p[i] != '/' && g.chance(3) {
 				fmt.Fprintf(&b, "%%%02x", p[i])
 			} else {
 				b.WriteByte(p[i])
@@ -139,32 +128,32 @@ func (g *c35G) oddPath(lbl, p string) string {
 	case 3:
 		return "/%2e%2e" + p
 	case 4:
-		return g.pick(lbl+"abs", "http://"+g.s.addr("api")+p, "http://x"+p, "//x"+p, "*", "", "/", "x", "http://", "/"+v35.LongString(g.t, g.l(lbl+"long")))
+		return g.pick("http://"+g.s.addr("api")+p, "http://x"+p, "//x"+p, "*", "", "/", "x", "http://", "/"+g.x.LongString())
 	case 5:
-		return p + "/" + g.token(lbl+"tok")
-	default:
-		return p
+		return p + "/" + g.token()
 	}
+	return p
 }
 
-func (g *c35G) query(lbl string, kv ...string) string {
+// query renders key/value pairs; values are escaped unless an oddity says otherwise.
+func (g *c35G) query(kv ...string) string {
 	var parts []string
 	for i := 0; i+1 < len(kv); i += 2 {
 		k, v := kv[i], kv[i+1]
-		if g.chance(fmt.Sprintf("%sdrop%d", lbl, i), 12) {
+		if g.odd(20) {
 			continue
 		}
 		ev := url.QueryEscape(v)
-		if g.chance(fmt.Sprintf("%sraw%d", lbl, i), 8) {
+		if g.odd(15) {
 			ev = v // unescaped on purpose
 		}
 		parts = append(parts, k+"="+ev)
-		if g.chance(fmt.Sprintf("%sdup%d", lbl, i), 15) {
-			parts = append(parts, k+"="+url.QueryEscape(g.token(fmt.Sprintf("%sdupv%d", lbl, i))))
+		if g.odd(20) {
+			parts = append(parts, k+"="+url.QueryEscape(g.token()))
 		}
 	}
-	if g.chance(lbl+"extra", 8) {
-		parts = append(parts, g.pick(lbl+"extrav", "x", "=", "&", "%", "%zz=1", "a=%00", "user=admin&pass=x", "token=x", "jwt=a.b.c", "a[]=1", strings.Repeat("a=b&", 3000)+"z=1"))
+	if g.odd(12) {
+		parts = append(parts, g.pick("x", "=", "&", "%", "%zz=1", "a=%00", "user=admin&pass=x", "token=x", "jwt=a.b.c", "a[]=1", strings.Repeat("a=b&", 3000)+"z=1"))
 	}
 	if len(parts) == 0 {
 		return ""
@@ -178,8 +167,10 @@ func (g *c35G) httpInput(l, kind, cls string) *c35Input {
 
 func (g *c35G) addReq(in *c35Input, r c35HTTPReq, newConn bool) {
 	d := r.bytes(g.s.addr(in.L))
-	if g.chance(fmt.Sprintf("dmg%d", len(in.Segs)), 15) {
-		d = v35.MutateBytesAlways(g.t, g.l(fmt.Sprintf("dmgv%d", len(in.Segs))), d)
+	dmg := ""
+	if g.odd(25) {
+		d = g.x.MutateBytesAlways(d)
+		dmg = "(damaged)"
 	}
 	in.Segs = append(in.Segs, c35Seg{D: d, Wait: true, New: newConn && len(in.Segs) > 0})
 	if in.Note != "" {
@@ -189,36 +180,20 @@ func (g *c35G) addReq(in *c35Input, r c35HTTPReq, newConn bool) {
 	if len(tgt) > 120 {
 		tgt = tgt[:120] + "…"
 	}
-	in.Note += r.method + " " + tgt
+	in.Note += r.method + dmg + " " + tgt
 }
 
 func (g *c35G) deliver(in *c35Input) {
-	switch g.intn("delivery", 0, 11) {
-	case 0:
-		in.Half = true
-	case 1:
-		if len(in.Segs) > 0 && len(in.Segs[0].D) > 4 {
-			d := in.Segs[0].D
-			cut := g.intn("cut", 1, len(d)-1)
-			in.Segs = append([]c35Seg{{D: d[:cut]}, {D: d[cut:], Wait: in.Segs[0].Wait, Pause: g.intn("pause", 0, 30)}}, in.Segs[1:]...)
-			in.Note += " [split]"
-		}
-	case 2:
-		if len(in.Segs) > 0 {
-			d := in.Segs[len(in.Segs)-1].D
-			if len(d) > 2 {
-				in.Segs[len(in.Segs)-1].D = d[:g.intn("trunc", 1, len(d)-1)]
-				in.Segs[len(in.Segs)-1].Wait = false
-				in.Half = g.chance("trunchalf", 2)
-				in.Note += " [truncated]"
-			}
-		}
-	case 3: // pipeline everything on one connection without waiting
+	var notes []string
+	if g.odd(12) { // pipeline everything on one connection without waiting
 		for i := range in.Segs {
 			in.Segs[i].Wait, in.Segs[i].New = false, false
 		}
-		in.Note += " [pipelined]"
-	default:
+		notes = append(notes, "[pipelined]")
+	}
+	g.deliverRaw(in, &notes)
+	if len(notes) > 0 {
+		in.Note += " " + strings.Join(notes, " ")
 	}
 }
 
@@ -226,34 +201,39 @@ func (g *c35G) deliver(in *c35Input) {
 
 func (g *c35G) genHLS() *c35Input {
 	in := g.httpInput("hls", "tcp", "hls")
-	p := g.path("path")
+	p := g.path()
 	base := "/" + p + "/"
-	switch g.intn("flow", 0, 9) {
-	case 0, 1, 2, 3: // follow the playlists like a player does
-		in.Cls = "hls-follow"
-		g.addReq(in, g.httpReq("r0", "GET", g.oddPath("p0", base+"index.m3u8"), nil, ""), false)
-		g.addReq(in, g.httpReq("r1", "GET", "{{LOC}}", nil, ""), true) // cookieCheck redirect
-		q := ""
-		if g.chance("llq", 2) {
-			q = g.query("llq", "_HLS_msn", g.num("msn"), "_HLS_part", g.num("part"), "_HLS_skip", g.pick("skip", "YES", "v2", "", "x"))
+	llq := func() string {
+		if !g.chance(3) {
+			return ""
 		}
-		g.addReq(in, g.httpReq("r2", "GET", base+fmt.Sprintf("{{URI:%d}}", g.intn("u2", 0, 3))+q, nil, ""), true)
-		g.addReq(in, g.httpReq("r3", "GET", base+fmt.Sprintf("{{URI:%d}}", g.intn("u3", 0, 30)), nil, ""), true)
-	case 4, 5:
+		return g.query("_HLS_msn", g.numOr(fmt.Sprint(g.rng(0, 6)), 3), "_HLS_part", g.numOr(fmt.Sprint(g.rng(0, 4)), 3), "_HLS_skip", g.pick("YES", "YES", "v2", "", "x"))
+	}
+	switch x := g.x.Intn(10); {
+	case x < 5: // follow the playlists like a player does
+		in.Cls = "hls-follow"
+		g.addReq(in, g.httpReq("GET", g.oddPath(base+"index.m3u8"), nil, ""), false)
+		g.addReq(in, g.httpReq("GET", "{{LOC}}", nil, ""), true) // cookieCheck redirect
+		g.addReq(in, g.httpReq("GET", base+fmt.Sprintf("{{URI:%d}}", g.rng(0, 3))+llq(), nil, ""), true)
+		g.addReq(in, g.httpReq("GET", base+fmt.Sprintf("{{URI:%d}}", g.rng(0, 30)), nil, ""), true)
+		if g.chance(2) {
+			g.addReq(in, g.httpReq("GET", base+fmt.Sprintf("{{URI:%d}}", g.rng(0, 30))+llq(), nil, ""), true)
+		}
+	case x < 7:
 		in.Cls = "hls-file"
-		file := g.pick("file", "", "index.m3u8", "stream.m3u8", "video1_stream.m3u8", "audio2_stream.m3u8", "main_stream.m3u8", ".m3u8", "x.m3u8", "index.m3u8/", "init.mp4", "seg0.mp4", "part0.mp4", "x.ts", "x.mp", "x.mp4", ".mp4", ".ts", "hls.min.js", "hls.min.js.map", "a/hls.min.js", "../index.m3u8", "%2e%2e/index.m3u8", "index.m3u8%00", g.long("filel"))
-		q := g.query("q", "_HLS_msn", g.num("msn"), "_HLS_part", g.num("part"), "_HLS_skip", g.pick("skip", "YES", "v2", "", "x"), "cookieCheck", g.pick("cc", "1", "0", "", "11"), "hlsSession", g.pick("hs", "00000000-0000-0000-0000-000000000000", "x", ""))
-		g.addReq(in, g.httpReq("r0", "GET", g.oddPath("p0", base+file)+q, nil, ""), false)
-	case 6:
+		file := g.pick("", "index.m3u8", "stream.m3u8", "video1_stream.m3u8", "audio2_stream.m3u8", "main_stream.m3u8", ".m3u8", "x.m3u8", "index.m3u8/", "init.mp4", "seg0.mp4", "part0.mp4", "x.ts", "x.mp", "x.mp4", ".mp4", ".ts", "hls.min.js", "hls.min.js.map", "a/hls.min.js", "../index.m3u8", "%2e%2e/index.m3u8", "index.m3u8%00", g.long())
+		q := g.query("_HLS_msn", g.num(), "_HLS_part", g.num(), "_HLS_skip", g.pick("YES", "v2", "", "x"), "cookieCheck", g.pick("1", "0", "", "11"), "hlsSession", g.pick("00000000-0000-0000-0000-000000000000", "x", ""))
+		g.addReq(in, g.httpReq("GET", g.oddPath(base+file)+q, nil, ""), false)
+	case x < 8:
 		in.Cls = "hls-page"
-		g.addReq(in, g.httpReq("r0", "GET", g.oddPath("p0", "/"+p)+g.query("q", "token", g.token("tok")), nil, ""), false)
-		g.addReq(in, g.httpReq("r1", "GET", "{{LOC}}", nil, ""), true)
-	case 7:
+		g.addReq(in, g.httpReq("GET", g.oddPath("/"+p)+g.query("token", g.token()), nil, ""), false)
+		g.addReq(in, g.httpReq("GET", "{{LOC}}", nil, ""), true)
+	case x < 9:
 		in.Cls = "hls-method"
-		g.addReq(in, g.httpReq("r0", g.pick("m", "POST", "PUT", "DELETE", "OPTIONS", "HEAD", "PATCH"), base+"index.m3u8", []byte(g.token("body")), g.pick("ct", "", "text/plain")), false)
+		g.addReq(in, g.httpReq(g.pick("POST", "PUT", "DELETE", "OPTIONS", "HEAD", "PATCH"), base+"index.m3u8", []byte(g.token()), g.pick("", "text/plain")), false)
 	default:
 		in.Cls = "hls-root"
-		g.addReq(in, g.httpReq("r0", "GET", g.pick("t", "/", "/favicon.ico", "/hls.min.js", "//", "/.", "/..", "/index.m3u8", "/.m3u8", "/x.ts", "/.mp", "/%00", "/?x", "/live", "/live//", "/"+g.long("tl")), nil, ""), false)
+		g.addReq(in, g.httpReq("GET", g.pick("/", "/favicon.ico", "/hls.min.js", "//", "/.", "/..", "/index.m3u8", "/.m3u8", "/x.ts", "/.mp", "/%00", "/?x", "/live", "/live//", "/"+g.long()), nil, ""), false)
 	}
 	g.deliver(in)
 	in.Note = "hls: " + in.Note
@@ -264,7 +244,7 @@ func (g *c35G) genHLS() *c35Input {
 
 var c35APIRoutes = []struct {
 	method, route string
-	kind          string // list | name | id | plain | write | kick | forwardget | recdelete
+	kind          string
 }{
 	{"GET", "/v3/info", "plain"},
 	{"POST", "/v3/auth/jwks/refresh", "plain"},
@@ -314,108 +294,118 @@ var c35APIRoutes = []struct {
 
 // invalidJSON draws a body that the configuration decoder must refuse: every object carries an unknown field,
 // everything else has the wrong top-level type or is not JSON. (API writes that succeed would change the server
-// under test; the harness checks after every batch that the configuration did not move.)
-func (g *c35G) invalidJSON(lbl string) []byte {
+// under test; the harness checks regularly that the configuration did not move.)
+func (g *c35G) invalidJSON() []byte {
 	const marker = `"zzC35NoSuchField":1`
-	switch g.intn(lbl+"js", 0, 13) {
+	switch g.x.Intn(13) {
 	case 0:
 		return []byte(`{` + marker + `}`)
 	case 1:
 		return []byte(`{` + marker + `,"logLevel":"debug","readTimeout":"1s"}`)
 	case 2:
-		return []byte(`{"logLevel":` + g.pick(lbl+"v", `1`, `null`, `[]`, `{}`, `"x"`, `1e999`, `true`) + `,` + marker + `}`)
+		return []byte(`{"logLevel":` + g.pick(`1`, `null`, `[]`, `{}`, `"x"`, `1e999`, `true`) + `,` + marker + `}`)
 	case 3:
-		return []byte(`{"paths":{"x":{"source":` + g.pick(lbl+"v", `1`, `null`, `[]`, `"rtsp://x"`, `"\u0000"`) + `}},` + marker + `}`)
+		return []byte(`{"paths":{"x":{"source":` + g.pick(`1`, `null`, `[]`, `"rtsp://x"`, `"\u0000"`) + `}},` + marker + `}`)
 	case 4:
-		return []byte(g.pick(lbl+"top", `[]`, `[{}]`, `"x"`, `1`, `-0`, `1e999`, `true`, `nul`, ``, ` `, `{`, `}`, `{"a":}`, `{"a":1,}`, `[1,2`, `'x'`, "\xff\xfe", `{"a":"\ud800"}`, `{"\u0000":1}`))
+		return []byte(g.pick(`[]`, `[{}]`, `"x"`, `1`, `-0`, `1e999`, `true`, `nul`, ``, ` `, `{`, `}`, `{"a":}`, `{"a":1,}`, `[1,2`, `'x'`, "\xff\xfe", `{"a":"\ud800"}`, `{"\u0000":1}`))
 	case 5:
-		return []byte(strings.Repeat(`{"a":`, g.intn(lbl+"depth", 100, 20000)) + `1`)
+		return []byte(strings.Repeat(`{"a":`, g.rng(100, 20000)) + `1`)
 	case 6:
-		return []byte(strings.Repeat(`[`, g.intn(lbl+"depth", 100, 100000)))
+		return []byte(strings.Repeat(`[`, g.rng(100, 100000)))
 	case 7:
-		return []byte(`{` + marker + `,"x":"` + v35.LongString(g.t, g.l(lbl+"long")) + `"}`)
+		return []byte(`{` + marker + `,"x":"` + g.x.LongString() + `"}`)
 	case 8:
-		return []byte(`{"authInternalUsers":[{"user":"any","pass":"","ips":["` + g.token(lbl+"ip") + `"],"permissions":[{"action":"` + g.token(lbl+"act") + `"}]}],` + marker + `}`)
+		return []byte(`{"authInternalUsers":[{"user":"any","pass":"","ips":["` + g.token() + `"],"permissions":[{"action":"` + g.token() + `"}]}],` + marker + `}`)
 	case 9:
-		return []byte(`{"source":"` + g.pick(lbl+"src", "publisher", "rtsp://127.0.0.1:1/x", "redirect", "rpiCamera", "udp://238.0.0.1:1234", "x") + `","sourceOnDemand":` + g.pick(lbl+"b", "true", "1", `"yes"`) + `,` + marker + `}`)
+		return []byte(`{"source":"` + g.pick("publisher", "rtsp://127.0.0.1:1/x", "redirect", "rpiCamera", "udp://238.0.0.1:1234", "x") + `","sourceOnDemand":` + g.pick("true", "1", `"yes"`) + `,` + marker + `}`)
 	case 10:
-		return []byte(`{"recordSegmentDuration":` + g.pick(lbl+"d", `"0s"`, `"-1s"`, `1`, `"1000000h"`, `"x"`) + `,"rtspTransports":` + g.pick(lbl+"tr", `["x"]`, `"udp"`, `[1]`, `null`) + `,` + marker + `}`)
+		return []byte(`{"recordSegmentDuration":` + g.pick(`"0s"`, `"-1s"`, `1`, `"1000000h"`, `"x"`) + `,"rtspTransports":` + g.pick(`["x"]`, `"udp"`, `[1]`, `null`) + `,` + marker + `}`)
 	case 11:
 		return []byte(`{` + marker + `,` + marker + `,"zzC35NoSuchField":{"deep":[1,2,{"x":null}]}}`)
 	default:
-		return []byte(`{` + marker + `,"runOnInit":"x","hlsVariant":"` + g.token(lbl+"hv") + `","webrtcICEServers2":[{"url":"` + g.token(lbl+"ice") + `"}]}`)
+		return []byte(`{` + marker + `,"runOnInit":"x","hlsVariant":"` + g.token() + `","webrtcICEServers2":[{"url":"` + g.token() + `"}]}`)
 	}
 }
 
-func (g *c35G) uuidish(lbl string) string {
-	return g.pick(lbl, "00000000-0000-0000-0000-000000000000", "{{ID}}", "{{ID}}", "{{ID}}", "ffffffff-ffff-ffff-ffff-ffffffffffff", "00000000000000000000000000000000", "{00000000-0000-0000-0000-000000000000}", "urn:uuid:00000000-0000-0000-0000-000000000000",
-		"0", "", "x", "00000000-0000-0000-0000-00000000000", "00000000-0000-0000-0000-0000000000000", "g0000000-0000-0000-0000-000000000000", "../list", "%00", g.long(lbl+"l"))
+func (g *c35G) uuidish() string {
+	if !g.odd(3) {
+		return g.pick("{{ID}}", "{{ID}}", "{{ID}}", "00000000-0000-0000-0000-000000000000")
+	}
+	return g.pick("ffffffff-ffff-ffff-ffff-ffffffffffff", "00000000000000000000000000000000", "{00000000-0000-0000-0000-000000000000}", "urn:uuid:00000000-0000-0000-0000-000000000000",
+		"0", "", "x", "00000000-0000-0000-0000-00000000000", "00000000-0000-0000-0000-0000000000000", "g0000000-0000-0000-0000-000000000000", "../list", "%00", g.long())
 }
 
-func (g *c35G) timeStr(lbl string) string {
-	off := time.Duration(rapid.SampledFrom([]int64{0, 0, 0, 1, 2, -1, 3, 5, 10, -10, 60, 3600, -3600, 86400 * 365, -86400 * 365 * 50, 86400 * 365 * 300}).Draw(g.t, g.l(lbl+"off"))) * time.Second
-	tm := g.s.Base.Add(off)
-	switch g.intn(lbl+"fmt", 0, 11) {
+// timeStr renders a time near the first recorded segment, normally in RFC 3339.
+func (g *c35G) timeStr() string {
+	offs := []int64{0, 0, 0, 1, 2, -1, 3, 5, 10, -10, 60}
+	off := offs[g.x.Intn(len(offs))]
+	if g.odd(6) {
+		off = []int64{3600, -3600, 86400 * 365, -86400 * 365 * 50, 86400 * 365 * 300}[g.x.Intn(5)]
+	}
+	tm := g.s.Base.Add(time.Duration(off) * time.Second)
+	switch g.oddCase(4, 4) {
 	case 0:
-		return tm.UTC().Format(time.RFC3339)
-	case 1:
-		return tm.Format(time.RFC3339Nano)
-	case 2:
 		return tm.In(time.FixedZone("x", 14*3600)).Format(time.RFC3339Nano)
-	case 3:
+	case 1:
 		return tm.In(time.FixedZone("y", -12*3600-1800)).Format(time.RFC3339)
-	case 4:
-		return g.pick(lbl+"odd", "", "0", "now", "0000-01-01T00:00:00Z", "9999-12-31T23:59:59Z", "10000-01-01T00:00:00Z", "-0001-01-01T00:00:00Z", "1970-01-01T00:00:00Z", "1969-12-31T23:59:59.999999999Z",
+	case 2, 3:
+		return g.pick("", "0", "now", "0000-01-01T00:00:00Z", "9999-12-31T23:59:59Z", "10000-01-01T00:00:00Z", "-0001-01-01T00:00:00Z", "1970-01-01T00:00:00Z", "1969-12-31T23:59:59.999999999Z",
 			"2024-02-30T00:00:00Z", "2024-01-01T24:00:00Z", "2024-01-01T00:00:60Z", "2024-01-01T00:00:00+24:00", "2024-01-01T00:00:00+00:60", "2024-01-01 00:00:00", "2024-01-01T00:00:00", "2024-01-01T00:00:00.Z",
-			"2024-01-01T00:00:00.0000000000000000000001Z", "2262-04-11T23:47:16.854775807Z", "2262-04-11T23:47:16.854775808Z", "1677-09-21T00:12:43.145224192Z", "1677-09-21T00:12:43.145224191Z", tm.Format(time.RFC1123), fmt.Sprint(tm.Unix()), g.token(lbl+"tok"))
-	default:
-		return tm.Format(time.RFC3339Nano)
+			"2024-01-01T00:00:00.0000000000000000000001Z", "2262-04-11T23:47:16.854775807Z", "2262-04-11T23:47:16.854775808Z", "1677-09-21T00:12:43.145224192Z", "1677-09-21T00:12:43.145224191Z", tm.Format(time.RFC1123), fmt.Sprint(tm.Unix()), g.token())
 	}
+	if g.chance(2) {
+		return tm.UTC().Format(time.RFC3339)
+	}
+	return tm.Format(time.RFC3339Nano)
 }
 
 func (g *c35G) genAPI() *c35Input {
 	in := g.httpInput("api", "tcp", "api")
-	rt := c35APIRoutes[g.intn("route", 0, len(c35APIRoutes)-1)]
-	pag := func(lbl string) string {
-		if g.chance(lbl+"nopag", 2) {
+	rt := c35APIRoutes[g.x.Intn(len(c35APIRoutes))]
+	pag := func() string {
+		if g.chance(2) {
 			return ""
 		}
-		return g.query(lbl, "itemsPerPage", g.num(lbl+"ipp"), "page", g.num(lbl+"pg"))
+		return g.query("itemsPerPage", g.numOr(fmt.Sprint(g.rng(1, 100)), 2), "page", g.numOr(fmt.Sprint(g.rng(0, 3)), 2))
 	}
-	name := func(lbl string) string { return g.oddPath(lbl, g.path(lbl+"n")) }
+	name := func() string { return g.oddPath(g.path()) }
 	in.Cls = "api-" + rt.kind
 	switch rt.kind {
 	case "plain":
-		g.addReq(in, g.httpReq("r0", rt.method, g.oddPath("p0", rt.route)+pag("pag"), nil, ""), false)
+		g.addReq(in, g.httpReq(rt.method, g.oddPath(rt.route)+pag(), nil, ""), false)
 	case "list":
-		g.addReq(in, g.httpReq("r0", rt.method, rt.route+pag("pag"), nil, ""), false)
+		g.addReq(in, g.httpReq(rt.method, rt.route+pag(), nil, ""), false)
 	case "name":
-		g.addReq(in, g.httpReq("r0", rt.method, rt.route+name("nm")+pag("pag"), nil, ""), false)
+		g.addReq(in, g.httpReq(rt.method, rt.route+name()+pag(), nil, ""), false)
 	case "id", "kick":
 		list := strings.Replace(strings.Replace(rt.route, "/get/", "/list", 1), "/kick/", "/list", 1)
-		g.addReq(in, g.httpReq("r0", "GET", list, nil, ""), false)
+		g.addReq(in, g.httpReq("GET", list, nil, ""), false)
 		var body []byte
-		if rt.kind == "kick" && g.chance("kickbody", 3) {
-			body = g.invalidJSON("kb")
+		if rt.kind == "kick" && g.odd(4) {
+			body = g.invalidJSON()
 		}
-		g.addReq(in, g.httpReq("r1", rt.method, rt.route+g.uuidish("id"), body, ""), true)
+		g.addReq(in, g.httpReq(rt.method, rt.route+g.uuidish(), body, ""), true)
 	case "forwardlist":
-		g.addReq(in, g.httpReq("r0", rt.method, rt.route+g.query("q", "path", g.path("fp"), "itemsPerPage", g.num("ipp"), "page", g.num("pg")), nil, ""), false)
+		g.addReq(in, g.httpReq(rt.method, rt.route+g.query("path", g.path(), "itemsPerPage", g.num(), "page", g.num()), nil, ""), false)
 	case "forwardget":
-		g.addReq(in, g.httpReq("r0", rt.method, rt.route+g.query("q", "path", g.path("fp"), "id", g.uuidish("fid")), nil, ""), false)
+		g.addReq(in, g.httpReq(rt.method, rt.route+g.query("path", g.path(), "id", g.uuidish()), nil, ""), false)
 	case "write":
-		g.addReq(in, g.httpReq("r0", rt.method, rt.route, g.invalidJSON("js"), g.pick("ct", "application/json", "application/json", "", "text/plain", "application/x-www-form-urlencoded")), false)
+		ct := "application/json"
+		if g.odd(6) {
+			ct = g.pick("", "text/plain", "application/x-www-form-urlencoded")
+		}
+		g.addReq(in, g.httpReq(rt.method, rt.route, g.invalidJSON(), ct), false)
 	case "writename":
-		g.addReq(in, g.httpReq("r0", rt.method, rt.route+name("nm"), g.invalidJSON("js"), "application/json"), false)
+		g.addReq(in, g.httpReq(rt.method, rt.route+name(), g.invalidJSON(), "application/json"), false)
 	case "deletename":
 		// a DELETE of an existing path configuration would change the server under test: only names that cannot
-		// resolve to 'live' / 'all_others' (prefix zz survives every decoding)
-		g.addReq(in, g.httpReq("r0", rt.method, rt.route+"zz"+name("nm"), nil, ""), false)
+		// resolve to 'live' / 'all_others' (the prefix zz survives every decoding)
+		g.addReq(in, g.httpReq(rt.method, rt.route+"zz"+name(), nil, ""), false)
 	case "recdelete":
-		g.addReq(in, g.httpReq("r0", rt.method, rt.route+g.query("q", "path", g.path("rp"), "start", g.timeStr("start")), nil, ""), false)
+		g.addReq(in, g.httpReq(rt.method, rt.route+g.query("path", g.path(), "start", g.timeStr()), nil, ""), false)
 	}
-	if g.chance("second", 6) { // wrong method on a known route / unknown route
-		g.addReq(in, g.httpReq("rx", g.pick("xm", "GET", "POST", "DELETE", "PATCH", "PUT", "OPTIONS"), g.pick("xr", "/", "/v3", "/v3/", "/v2/paths/list", "/v3/paths", "/v3/paths/list/", "/v3/paths/get", "/v3/paths/get/", "/v3/config/paths/get//", "/v3/recordings/get/", "/v3/%2e%2e/", "/V3/info", "/v3/rtspsessions/kick/", "/v3/hlssessions/get/"), nil, ""), true)
+	if g.odd(8) { // wrong method on a known route / unknown route
+		g.addReq(in, g.httpReq(g.pick("GET", "POST", "DELETE", "PATCH", "PUT", "OPTIONS"), g.pick("/", "/v3", "/v3/", "/v2/paths/list", "/v3/paths", "/v3/paths/list/", "/v3/paths/get", "/v3/paths/get/", "/v3/config/paths/get//", "/v3/recordings/get/", "/v3/%2e%2e/", "/V3/info", "/v3/rtspsessions/kick/", "/v3/hlssessions/get/"), nil, ""), true)
 	}
 	g.deliver(in)
 	in.Note = "api: " + in.Note
@@ -426,28 +416,33 @@ func (g *c35G) genAPI() *c35Input {
 
 func (g *c35G) genPlayback() *c35Input {
 	in := g.httpInput("playback", "tcp", "playback")
-	p := g.path("path")
-	switch g.intn("flow", 0, 9) {
-	case 0, 1, 2:
-		in.Cls = "playback-list"
-		g.addReq(in, g.httpReq("r0", "GET", g.oddPath("p0", "/list")+g.query("q", "path", p, "start", g.timeStr("start"), "end", g.timeStr("end")), nil, ""), false)
-	case 3:
-		in.Cls = "playback-list"
-		g.addReq(in, g.httpReq("r0", "GET", "/list"+g.query("q", "path", p), nil, ""), false)
-	case 4, 5, 6, 7:
-		in.Cls = "playback-get"
-		dur := g.num("dur")
-		if g.chance("durok", 2) {
-			dur = g.pick("durv", "1", "2", "0.5", "10", "3", "1.5", "0.001", "60")
+	p := g.path()
+	dur := func() string {
+		return g.numOr(g.pick("1", "2", "0.5", "10", "3", "1.5", "0.001", "60"), 3)
+	}
+	format := func() string {
+		if g.odd(6) {
+			return g.pick("mpegts", "x", "MP4", " ")
 		}
-		g.addReq(in, g.httpReq("r0", "GET", g.oddPath("p0", "/get")+g.query("q", "path", p, "start", g.timeStr("start"), "duration", dur, "format", g.pick("fmt", "", "fmp4", "fmp4", "mp4", "mp4", "mpegts", "x", "MP4")), nil, ""), false)
-	case 8:
+		return g.pick("", "fmp4", "fmp4", "mp4", "mp4")
+	}
+	switch x := g.x.Intn(10); {
+	case x < 2:
+		in.Cls = "playback-list"
+		g.addReq(in, g.httpReq("GET", g.oddPath("/list")+g.query("path", p, "start", g.timeStr(), "end", g.timeStr()), nil, ""), false)
+	case x < 3:
+		in.Cls = "playback-list"
+		g.addReq(in, g.httpReq("GET", "/list"+g.query("path", p), nil, ""), false)
+	case x < 8:
+		in.Cls = "playback-get"
+		g.addReq(in, g.httpReq("GET", g.oddPath("/get")+g.query("path", p, "start", g.timeStr(), "duration", dur(), "format", format()), nil, ""), false)
+	case x < 9:
 		in.Cls = "playback-follow"
-		g.addReq(in, g.httpReq("r0", "GET", "/list"+g.query("q", "path", p), nil, ""), false)
-		g.addReq(in, g.httpReq("r1", "GET", "/get"+g.query("q2", "path", p, "start", g.timeStr("s2"), "duration", g.pick("d2", "1", "3", "0", "-1", "1e308", "0.0000001", "9223372036"), "format", g.pick("f2", "mp4", "fmp4")), nil, ""), true)
+		g.addReq(in, g.httpReq("GET", "/list"+g.query("path", p), nil, ""), false)
+		g.addReq(in, g.httpReq("GET", "/get"+g.query("path", p, "start", g.timeStr(), "duration", g.pick("1", "3", "0", "-1", "1e308", "0.0000001", "9223372036"), "format", g.pick("mp4", "fmp4")), nil, ""), true)
 	default:
 		in.Cls = "playback-other"
-		g.addReq(in, g.httpReq("r0", g.pick("m", "GET", "POST", "DELETE", "OPTIONS", "HEAD"), g.pick("t", "/", "/list/", "/get/", "/x", "/list/x", "//list", "/LIST", "/get%00")+g.query("q", "path", p), nil, ""), false)
+		g.addReq(in, g.httpReq(g.pick("GET", "POST", "DELETE", "OPTIONS", "HEAD"), g.pick("/", "/list/", "/get/", "/x", "/list/x", "//list", "/LIST", "/get%00")+g.query("path", p), nil, ""), false)
 	}
 	g.deliver(in)
 	in.Note = "playback: " + in.Note
@@ -460,17 +455,17 @@ func (g *c35G) genMetrics() *c35Input {
 	in := g.httpInput("metrics", "tcp", "metrics")
 	keys := []string{"type", "path", "forward_dest", "hls_muxer", "hls_session", "rtsp_conn", "rtsp_session", "rtsps_conn", "rtsps_session", "rtmp_conn", "rtmps_conn", "srt_conn", "webrtc_session", "moq_session"}
 	var kv []string
-	for i := 0; i < g.intn("nq", 0, 3); i++ {
-		k := keys[g.intn(fmt.Sprintf("k%d", i), 0, len(keys)-1)]
-		v := g.token(fmt.Sprintf("v%d", i))
+	for i := 0; i < g.rng(0, 3); i++ {
+		k := keys[g.x.Intn(len(keys))]
+		v := g.pick("live", "00000000-0000-0000-0000-000000000000", "x")
 		if k == "type" {
-			v = g.pick(fmt.Sprintf("tv%d", i), "paths", "forward_dests", "hls_muxers", "hls_sessions", "rtsp_conns", "rtsp_sessions", "rtsps_conns", "rtmp_conns", "srt_conns", "webrtc_sessions", "moq_sessions", "x", "", "Paths")
-		} else if g.chance(fmt.Sprintf("vk%d", i), 2) {
-			v = g.pick(fmt.Sprintf("vv%d", i), "live", "00000000-0000-0000-0000-000000000000", "x")
+			v = g.pick("paths", "forward_dests", "hls_muxers", "hls_sessions", "rtsp_conns", "rtsp_sessions", "rtsps_conns", "rtmp_conns", "srt_conns", "webrtc_sessions", "moq_sessions", "x", "", "Paths")
+		} else if g.odd(3) {
+			v = g.token()
 		}
 		kv = append(kv, k, v)
 	}
-	g.addReq(in, g.httpReq("r0", "GET", g.oddPath("p0", "/metrics")+g.query("q", kv...), nil, ""), false)
+	g.addReq(in, g.httpReq("GET", g.oddPath("/metrics")+g.query(kv...), nil, ""), false)
 	g.deliver(in)
 	in.Note = "metrics: " + in.Note
 	return in
@@ -478,16 +473,19 @@ func (g *c35G) genMetrics() *c35Input {
 
 func (g *c35G) genPprof() *c35Input {
 	in := g.httpInput("pprof", "tcp", "pprof")
-	prof := g.pick("prof", "", "allocs", "block", "cmdline", "goroutine", "heap", "mutex", "threadcreate", "symbol", "profile", "trace", "x", "heap/", "../x", "goroutine%00")
-	secs := g.pick("secs", "0", "0", "1", "-1", "0.1", "x", "", "99999999999999999999")
-	q := g.query("q", "debug", g.num("dbg"), "seconds", secs, "gc", g.num("gc"))
+	prof := g.pick("", "allocs", "block", "cmdline", "goroutine", "heap", "mutex", "threadcreate", "symbol", "profile", "trace")
+	if g.odd(6) {
+		prof = g.pick("x", "heap/", "../x", "goroutine%00")
+	}
+	secs := g.pick("0", "0", "1", "-1", "0.1", "x", "", "99999999999999999999")
+	q := g.query("debug", g.numOr(g.pick("0", "1", "2"), 3), "seconds", secs, "gc", g.numOr("1", 3))
 	var body []byte
 	method := "GET"
-	if prof == "symbol" && g.chance("sympost", 2) {
+	if prof == "symbol" && g.chance(2) {
 		method = "POST"
-		body = []byte(g.pick("symbody", "0x1+0x2", "0x", "", "zz", strings.Repeat("0x1+", 5000)+"0x2"))
+		body = []byte(g.pick("0x1+0x2", "0x", "", "zz", strings.Repeat("0x1+", 5000)+"0x2"))
 	}
-	g.addReq(in, g.httpReq("r0", method, g.oddPath("p0", "/debug/pprof/"+prof)+q, body, ""), false)
+	g.addReq(in, g.httpReq(method, g.oddPath("/debug/pprof/"+prof)+q, body, ""), false)
 	g.deliver(in)
 	in.Note = "pprof: " + in.Note
 	return in
@@ -497,11 +495,15 @@ func (g *c35G) genPprof() *c35Input {
 
 func (g *c35G) genMoQHTTP2() *c35Input {
 	in := g.httpInput("moqhttp2", "tls", "moq-http2")
-	p := g.path("path")
-	t := g.pick("t", "/"+p+"/", "/"+p+"/publish", "/"+p, "/"+p+"/authmirror", "/authmirror", "/x/fingerprint", "/fingerprint", "/reader.js", "/a/publisher.js", "/favicon.ico", "/", "/publish", "//publish", "/"+p+"/moq")
-	r := g.httpReq("r0", g.pick("m", "GET", "GET", "GET", "GET", "OPTIONS", "POST", "CONNECT", "HEAD"), g.oddPath("p0", t)+g.query("q", "token", g.token("tok")), nil, "")
+	p := g.path()
+	t := g.pick("/"+p+"/", "/"+p+"/publish", "/"+p, "/"+p+"/authmirror", "/authmirror", "/x/fingerprint", "/fingerprint", "/reader.js", "/a/publisher.js", "/favicon.ico", "/", "/publish", "//publish", "/"+p+"/moq")
+	m := "GET"
+	if g.odd(5) {
+		m = g.pick("OPTIONS", "POST", "CONNECT", "HEAD")
+	}
+	r := g.httpReq(m, g.oddPath(t)+g.query("token", g.token()), nil, "")
 	if strings.HasSuffix(t, "authmirror") {
-		r.hdr = append(r.hdr, [2]string{"Authorization", g.pick("am", "Basic "+c35B64("a:b"), "Basic "+c35B64("nocolon"), "Basic ", "Basic !!!", "Basic", "Basic  ", "Bearer x", "Basic "+c35B64(":"), "Basic "+strings.Repeat("QUFB", 3000))})
+		r.hdr = append(r.hdr, [2]string{"Authorization", g.pick("Basic "+c35B64("a:b"), "Basic "+c35B64("nocolon"), "Basic ", "Basic !!!", "Basic", "Basic  ", "Bearer x", "Basic "+c35B64(":"), "Basic "+strings.Repeat("QUFB", 3000))})
 	}
 	g.addReq(in, r, false)
 	g.deliver(in)
